@@ -98,3 +98,12 @@ Theorem C17_regexes_as_modelled :
   Generated.c17_store_prefixes = ["."; "#"]%string.
 Proof. exact regexes_as_modelled. Qed.
 Print Assumptions C17_regexes_as_modelled.
+
+(* ---- `hidden_class_id_selectors` itself, re-read from src/cosmetic_filter_cache.rs on every run
+   (tools/gen_fragments/c17_lookup_structure.py -> Generated.LookupGen) and interpreted over the
+   model's stores: it IS the lookup every theorem of this file speaks about ---- *)
+From Adb Require Struct_Lookup_Proofs.
+Theorem C17_src_hidden_is_model : forall (st : stores) (C I E : list str),
+  Struct_Lookup_Proofs.interp_hidden st C I E = Some (hidden st C I E).
+Proof. exact Struct_Lookup_Proofs.interp_hidden_is_model. Qed.
+Print Assumptions C17_src_hidden_is_model.
